@@ -80,6 +80,16 @@ theorem C20_find_is_observed (cfg : Cfg) (σ : State) (s : Sid) (o : Obj) (a : A
     (((step cfg σ s (.find o a v)).1.sess s).objs o).obs a = some v :=
   find_obs cfg σ s o a v hres hw hvol ha
 
+/-- … and a keyword lookup answered from the identity map (`_find_in_cache_`: `val != attr.__get__(obj)`) reads the attribute
+    of the cached object even when the criterion does NOT match (the lookup returns None / False): the cached value `x` is
+    the recorded observation, so a later UPDATE of the object is checked against it (C20_view) -/
+theorem C20_lookup_in_cache_is_observed (cfg : Cfg) (σ : State) (s : Sid) (o : Obj) (a : Attr) (v x r : Val)
+    (hp : ((σ.sess s).objs o).present = true) (hx : ((σ.sess s).objs o).vals a = some x)
+    (hres : (step cfg σ s (.find o a v)).2.res = .ok (some r)) (hw : ((σ.sess s).objs o).wbits a = false)
+    (hvol : cfg.volatile a = false) :
+    (((step cfg σ s (.find o a v)).1.sess s).objs o).obs a = some x ∧ r = (if x = v then 1 else 0) :=
+  find_cached_obs cfg σ s o a v x r hp hx hres hw hvol
+
 /-- … and every object returned by `select(x for x in E if x.a == v)` when the query is really executed (not answered from
     the session's query-result cache: each row of the table the connection sees with `a = v`; optionally `.for_update()`)
     gets `v` recorded as the observation of `a` (`_fetch_objects(..., used_attrs)` →
@@ -316,6 +326,17 @@ def modelSess (sopt fu wrote : Bool) : (Bool × Bool × Bool × Nat) × (Bool ×
     without get_for_update, with and without a flushed modification -/
 theorem C20_bridge_session : sessRows.length = 8 ∧ ∀ p ∈ sessRows, modelSess p.1.1 p.1.2.1 p.1.2.2 = p.2 := by decide
 
+/-- a keyword lookup answered by the model from the identity map: (found, read bit of the criterion attribute) -/
+def modelFindCached (matching : Bool) : Bool × Bool :=
+  let cfg : Cfg := { attrs := [0], lazy := fun _ => false, volatile := fun _ => false, attrOpt := fun _ => true, sessOpt := fun _ => true }
+  let σ := after cfg (fun _ _ => 3) [(0, .get 1 false)]
+  let r := step cfg σ 0 (.find 1 0 (if matching then 3 else 999))
+  (r.2.res == .ok (some 1), ((r.1.sess 0).objs 1).rbits 0)
+
+/-- the model's `.find` on a cached object = the real `get(pk, a=v)` AND `exists(pk, a=v)` answered by `_find_in_cache_`:
+    found iff the criterion matches, and the criterion attribute is marked as read in BOTH cases -/
+theorem C20_bridge_lookup_in_cache : findRows.length = 4 ∧ ∀ p ∈ findRows, modelFindCached p.1.1 = p.2 := by decide
+
 /-- the INTENDED meaning of the db_session options: the transaction starts at once for immediate / ddl / serializable /
     non-optimistic sessions; optimistic checks are on unless `optimistic=False` or `serializable=True` — in particular
     `immediate=True` and `ddl=True` do NOT switch them off -/
@@ -412,6 +433,13 @@ def immHistory : List (Sid × Action) :=
 example : ((after cfgImm ones [(1, .get 1 false)]).sess 1).inTxn = true
     ∧ (step cfgImm (after cfgImm ones immHistory) 1 .close).2.res = .optimisticCheckError
     ∧ (step cfgNonOpt (after cfgNonOpt ones immHistory) 1 .close).2.upd = some 1 := by decide
+
+-- a lookup with a NON-matching criterion answered from the cache counts as a read: get(id=1, a=5) on a cached row with a = 1
+-- returns None, marks `a`, and after a concurrent change of `a` the UPDATE of another attribute is refused
+example : (step cfgAll (after cfgAll ones [(1, .get 1 false)]) 1 (.find 1 0 5)).2.res = .ok (some 0)
+    ∧ (((after cfgAll ones [(1, .get 1 false), (1, .find 1 0 5)]).sess 1).objs 1).obs 0 = some 1
+    ∧ (step cfgAll (after cfgAll ones [(1, .get 1 false), (1, .find 1 0 5), (1, .write 1 1 61), (0, .get 1 false), (0, .write 1 0 5),
+        (0, .close), (0, .close)]) 1 .close).2.res = .optimisticCheckError := by decide
 
 -- a session with two transactions: what it read in the first is still checked by the UPDATE of the second
 example : (step cfgAll (after cfgAll ones [(1, .get 1 false), (1, .read 1 0), (1, .write 1 1 61), (1, .commit), (1, .commit),
